@@ -103,7 +103,7 @@ Fixpoint r4_addrs (p : slice) (a : N) (i cnt : nat) : res (list value) :=
   match cnt with
   | O => Ok []
   | S c =>
-      let pos := (i * N.to_nat a * 4)%nat in
+      let pos := (8 + i * N.to_nat a * 4)%nat in     (* repaired: entries follow the 8-byte header *)
       x <- (if a =? 4 then rsl p pos (pos + 4) else rsl p pos (pos + 16)) ;;
       r <- r4_addrs p a (S i) c ;; Ok (x :: r)
   end.
@@ -129,7 +129,8 @@ Definition R4_getters : gtable :=
 
 Definition LLDP_IsValid (p : slice) : res bool := Ok (6 <=? lenN p).
 (* (t, l, v, err): if len(p) <= n+2 -> err; t = p[n]>>1; l = (p[n]&1)<<8 + p[n+1]; t==0&&l==0 -> (t,l,nil,nil);
-   if len(p) > n+2+l+2 -> (t, l, p[n+2:n+l], nil); else err *)
+   if len(p) >= n+2+l -> (t, l, p[n+2:n+2+l], nil); else err
+   (repaired: the range was p[n+2:n+l], panicking for l < 2, and two more bytes were demanded after the value) *)
 Record tlv := mkTLV { tlv_t : N; tlv_l : N; tlv_v : option (nat * nat); tlv_err : bool }.
 Definition tlv_error : tlv := mkTLV 0 0 None true.
 Definition lldp_getTLV (p : slice) (n : nat) : res tlv :=
@@ -138,10 +139,11 @@ Definition lldp_getTLV (p : slice) (n : nat) : res tlv :=
   let t := N.shiftr b0 1 in
   let l := N.shiftl (N.land b0' 1) 8 + b1 in
   if (t =? 0) && (l =? 0) then Ok (mkTLV t l None false) else
-  if Nat.ltb (n + 2 + N.to_nat l + 2) (len p) then
-    s <- sl p (n + 2) (n + N.to_nat l) ;; Ok (mkTLV t l (Some ((n + 2)%nat, len s)) false)
+  if Nat.leb (n + 2 + N.to_nat l) (len p) then
+    s <- sl p (n + 2) (n + 2 + N.to_nat l) ;; Ok (mkTLV t l (Some ((n + 2)%nat, len s)) false)
   else Ok tlv_error.
-Definition tlv_value (x : tlv) : value := match tlv_v x with Some (o, n) => VR o n | None => VNil end.
+(* the returned value; an empty value and nil are not distinguished *)
+Definition tlv_value (x : tlv) : value := match tlv_v x with Some (o, n) => vr o n | None => VNil end.
 Definition tlv_vlen (x : tlv) : nat := match tlv_v x with Some (_, n) => n | None => 0%nat end.
 Definition LLDP_ChassisID : getter := fun p => x <- lldp_getTLV p 0 ;; Ok (tlv_value x).
 (* c := p.ChassisID(); _, _, v, _ := p.getTLV(len(c) + 2) *)
@@ -228,7 +230,7 @@ Fixpoint ndp_options (fuel : nat) (b : slice) (i : nat) : res value :=
 (* if len(p) <= k { return NewOptions{}, nil }; return newParseOptions(p[k:]) *)
 Definition ndp_options_at (k : nat) : getter := fun p =>
   if Nat.leb (len p) k then Ok VU else b <- slfrom p k ;; ndp_options (S (len b)) b 0.
-Definition RS_Options : getter := ndp_options_at 24.
+Definition RS_Options : getter := ndp_options_at 8.    (* repaired: was 24 *)
 Definition RA_Options : getter := ndp_options_at 16.
 
 Definition RS_getters : gtable :=
